@@ -50,7 +50,7 @@ class C08(Check):
                    'branch programs whose standalone run errors (mean(reduce) on an empty key ...) are discarded']
     ANCHORS = ['rxsci/operators/tee_map.py', 'rxsci/mux/muxconnectable.py']
     REQUIRED_TAGS = ['plain', 'mux', 'group', 'roll', 'roll_eq', 'split', 'zip', 'merge', 'combine_latest', 'branches=2', 'branches=3', 'branches=4', 'nested-tee', 'over-256-keys', 'after-aborted-subscriptions', 'prelude:dispose', 'prelude:peek', 'a-branch-with-failing-records', 'rx-native-branch-with-inner-observables']
-    REQUIRED_OBSERVED = ['tuples_compared', 'branch_traces_recorded', 'lifetimes_checked']
+    REQUIRED_OBSERVED = ['tuples_compared', 'branch_traces_recorded', 'lifetimes_checked', 'cold_source_runs_compared']
 
     def generate(self, rng, tier, shard, nshards):
         return with_prelude(self._generate(rng, tier, shard, nshards), rng, size=lambda c: len(c['items']))
@@ -80,7 +80,7 @@ class C08(Check):
                 b, _ = gen.gen_pipeline(rng, 'i', rng.randint(1, 3), opts, st, opts.max_depth)
                 branches.append(b)
             items = gen.gen_items(rng, hi=rng.choice([6, 12, 30]), sorted_=(ctx == 'time_split'))
-            if plain and k % 4 == 1:
+            if plain and (k // len(names)) % 3 == 1:
                 branches[rng.randrange(nb)] = [['rxflat']] + ([['map', 'add:1']] if rng.random() < 0.5 else [])
             dirty = None
             if k % 5 == 2 and not plain and items:
